@@ -16,12 +16,12 @@ func init() {
 		ID:    "C15",
 		Title: "KRPC wire codec round-trips and never panics",
 		Decided: "C15.1 size table ↔ encoder agreement: for every compact list type, ElemSize() = (20 if the element carries an ID) + IP width the type's own MarshalBinary normalises to (To4 → 4, To16 → 16; raw 20-byte arrays for infohashes) + 2; MarshalBinary goes through the width-asserting helper (or emits len × ElemSize bytes), UnmarshalBinary through unmarshalBinarySlice on the receiver itself; expected table 6 / 18 / 26 / 38 / 20; " +
-			"C15.2 partial elements are an error, not a slice past the end: every index/slice of wire bytes in the decoders is guarded by a length fact or a recover (engine H, shared with C01.2); the element decoder is handed exactly b[:ElemSize] and the cursor advances by exactly ElemSize, both under len(b) ≥ ElemSize; " +
+			"C15.2 partial elements are an error, not a slice past the end: every index/slice of wire bytes in the decoders is guarded by a length fact or a recover (engine H, shared with C01.2); the element decoder is handed exactly b[:ElemSize] and the cursor advances by exactly ElemSize, both under len(b) ≥ ElemSize; the compact decoder returns only with its input exhausted, on the short-tail error or with an element error in hand; every encoding/binary fixed-width accessor in the library (decoders and encoders) is handed a provably long-enough slice; " +
 			"C15.3 method pairing: every krpc type with MarshalBencode/MarshalBinary has the matching Unmarshal on its pointer and vice versa; the nodes file is written and read through the same compact type, and the writer replaces the file (create+truncate); " +
 			"C15.4 tag table: within every wire struct (embedded structs flattened) bencode keys are unique and every field has a tag; " +
 			"C15.6 every error result returned anywhere under the krpc Marshal* methods is nil or handed up from a callee - none is constructed there - so encoding a message assembled by the handlers cannot fail (and MustMarshal in reply() cannot panic) because of a field value such as an out-of-range port taken from the wire; " +
 			"C15.7 in every library function with an error result that calls a krpc / bencode decoder, each return on a path on which that decoder reported an error carries a non-nil error (\"any other length is an error\" also at ReadNodesFromFile and the bencode entry points); " +
-			"C15.5 encoding is read-only on the message: in everything reachable from the krpc Marshal* methods no append, copy or element store has a destination that is (part of) a field of the value being encoded - append into a message slice would write its spare capacity, which may alias a neighbouring address.",
+			"C15.5 encoding is read-only on the message: in everything reachable from the krpc Marshal* methods no append, copy or element store has a destination that is (part of) a field of the value being encoded - append into a message slice would write its spare capacity, which may alias a neighbouring address; no value-receiver Marshal* method assigns to its receiver copy and NodeAddr's IP bytes reach its binary form verbatim (an encoder encodes the value it was handed, so decode→encode keeps the address form).",
 		NotDecided: "round-trip identity and decode→encode fixpoint over all values (a value-level statement about the bencode library and net.IP forms); acceptance of every multiple-of-ElemSize input.",
 		Assume:     []string{"github.com/anacrolix/torrent/bencode re-panics runtime errors raised inside UnmarshalBencode callbacks (read in its decoder), so decoder guards are load-bearing"},
 		Rules: []*Rule{
@@ -315,6 +315,49 @@ func c15r2(w *World, rr *RuleRun) {
 		}
 	}
 	rr.Oblige(shortFuncName(ubs), "trailing bytes shorter than one element produce an error", w.P.Pos(ubs.Pos()), okErr, "")
+	// the whole input is consumed: the decoder stops only with nothing left, on a short tail, or on
+	// an element decoder's error - never silently with bytes still unread
+	errTerms := map[string]bool{}
+	eachInstr([]*ssa.Function{ubs}, func(_ *ssa.Function, ins ssa.Instruction) {
+		if v, ok := ins.(ssa.Value); ok && v.Type() != nil && v.Type().String() == "error" {
+			errTerms[w.TS.Of(v).String()] = true
+		}
+	})
+	nRet := 0
+	eachInstr([]*ssa.Function{ubs}, func(_ *ssa.Function, ins ssa.Instruction) {
+		r, ok := ins.(*ssa.Return)
+		if !ok {
+			return
+		}
+		nRet++
+		w.Require(rr, r, "the compact decoder returns only with its input exhausted, a short tail, or an element error", func(alt *Alt) (bool, string) {
+			for k, t := range alt.terms {
+				sign := alt.facts[k]
+				switch k[0] {
+				case 'b':
+					if t.Op != OpBin {
+						continue
+					}
+					x, y := t.Args[0], t.Args[1]
+					lenZero := (x.Op == OpLen && y.IsConst("0")) || (y.Op == OpLen && x.IsConst("0"))
+					if lenZero && ((t.Name == "==" && sign) || (t.Name == "!=" && !sign)) {
+						return true, "len(b) = 0"
+					}
+					if t.Name == "<" && sign && x.Op == OpLen && termEq(y, per) {
+						return true, "short tail (an error, checked above)"
+					}
+				case 'n':
+					if sign && errTerms[t.String()] {
+						return true, "an error is in hand: " + trunc(t.String(), 60)
+					}
+				}
+			}
+			return false, "can stop with input left over and no error: {" + trunc(strings.Join(alt.Facts(), " ∧ "), 200) + "}"
+		})
+	})
+	if nRet == 0 {
+		rr.Oblige(shortFuncName(ubs), "the compact decoder returns only with its input exhausted, a short tail, or an element error", w.P.Pos(ubs.Pos()), false, "no return found")
+	}
 }
 
 func c15r3(w *World, rr *RuleRun) {
@@ -551,6 +594,120 @@ func c15r5(w *World, rr *RuleRun) {
 		}
 	}
 	rr.ObligeTrivial("krpc", "encoder closure analysed", "-", true, fmt.Sprintf("%d Marshal* roots, %d reachable functions, %d destinations", len(roots), len(reach), nDest))
+	w.checkEncodersVerbatim(rr, roots)
+}
+
+func (w *World) krpcMarshalRoots() []*ssa.Function {
+	var roots []*ssa.Function
+	for _, f := range w.P.LibFuncs {
+		if f.Pkg == nil || f.Pkg.Pkg.Name() != "krpc" || f.Signature.Recv() == nil || f.Parent() != nil {
+			continue
+		}
+		if strings.HasPrefix(f.Name(), "Marshal") {
+			roots = append(roots, f)
+		}
+	}
+	return roots
+}
+
+// checkEncodersVerbatim: an encoder encodes the value it was handed. (a) no krpc Marshal* method with
+// a value receiver assigns to its receiver copy (normalising there changes what goes on the wire but
+// not what the caller holds: decode→encode stops being a fixpoint, and the address form chosen by
+// the get_peers handler per family is undone); (b) NodeAddr's binary form is the IP bytes as held,
+// followed by the port: the IP field reaches the output verbatim, never through a conversion.
+func (w *World) checkEncodersVerbatim(rr *RuleRun, roots []*ssa.Function) {
+	n := 0
+	for _, f := range roots {
+		if _, ptr := f.Signature.Recv().Type().(*types.Pointer); ptr || len(f.Blocks) == 0 || len(f.Params) == 0 {
+			continue
+		}
+		recv := f.Params[0]
+		var spill *ssa.Alloc
+		if recv.Referrers() != nil {
+			for _, r := range *recv.Referrers() {
+				if st, ok := r.(*ssa.Store); ok && st.Val == ssa.Value(recv) {
+					if al, ok := st.Addr.(*ssa.Alloc); ok {
+						spill = al
+					}
+				}
+			}
+		}
+		n++
+		clean := true
+		where := ssa.Instruction(nil)
+		if spill != nil {
+			eachInstr(append([]*ssa.Function{f}, allAnon(f)...), func(_ *ssa.Function, ins ssa.Instruction) {
+				st, ok := ins.(*ssa.Store)
+				if !ok || st.Val == ssa.Value(recv) {
+					return
+				}
+				base := st.Addr
+				for i := 0; i < 6; i++ {
+					if fa, ok := base.(*ssa.FieldAddr); ok {
+						base = fa.X
+						continue
+					}
+					break
+				}
+				if base == ssa.Value(spill) {
+					clean = false
+					where = ins
+				}
+			})
+		}
+		if clean {
+			rr.Oblige(shortFuncName(f), "the encoder does not assign to its receiver (it encodes the value it was handed)", w.P.Pos(f.Pos()), true, "")
+		} else {
+			rr.At(w, where, "the encoder does not assign to its receiver (it encodes the value it was handed)", false, "writes "+trunc(w.TS.Of(where.(*ssa.Store).Addr).String(), 80))
+		}
+	}
+	if n == 0 {
+		rr.Broken("no value-receiver krpc Marshal* method found")
+	}
+	mb := w.P.Func("(krpc.NodeAddr).MarshalBinary")
+	ipF := w.P.Field("krpc", "NodeAddr", "IP")
+	verbatim, converted := 0, 0
+	eachInstr(w.regionFuncs(mb), func(fn *ssa.Function, ins ssa.Instruction) {
+		c := callInstrCommon(ins)
+		if c == nil {
+			return
+		}
+		if b, ok := c.Value.(*ssa.Builtin); ok && (b.Name() == "len" || b.Name() == "cap") {
+			return
+		}
+		for i := range c.Args {
+			for _, t := range w.ArgTerms(ins, i) {
+				// (only a count is taken from it under len / cap / copy: that is not the bytes)
+				var carries func(x *Term) bool
+				carries = func(x *Term) bool {
+					if x == nil || x.Op == OpLen || (x.Op == OpCall && (x.Name == "builtin.copy" || x.Name == "builtin.len" || x.Name == "builtin.cap")) {
+						return false
+					}
+					if isFieldTerm(x, ipF) {
+						return true
+					}
+					for _, a := range x.Args {
+						if carries(a) {
+							return true
+						}
+					}
+					return false
+				}
+				if !carries(t) {
+					continue
+				}
+				if isFieldTerm(t, ipF) && t.Args[0].Op == OpParam {
+					verbatim++
+				} else {
+					converted++
+					rr.At(w, ins, "NodeAddr's IP bytes reach its binary form verbatim (4 stays 4, 16 stays 16)", false, "operand "+trunc(t.String(), 120))
+				}
+			}
+		}
+	})
+	if converted == 0 {
+		rr.Oblige(shortFuncName(mb), "NodeAddr's IP bytes reach its binary form verbatim (4 stays 4, 16 stays 16)", w.P.Pos(mb.Pos()), verbatim > 0, fmt.Sprintf("%d verbatim uses", verbatim))
+	}
 }
 
 // c15r6: reply() and sendError() encode with MustMarshal / panic-on-error inside a goroutine that
